@@ -96,7 +96,7 @@ def discharge(spec, workroot, keep=False, extra_cbmc=None, trace_props=None, sol
     incl_text = ''
     for h in spec.includes:
         incl_text += open(os.path.join(SHIM, h)).read()
-    replaced = [r for r in list(spec.calls) + list(spec.shims) if re.search(r'\b%s\s*\(' % re.escape(r), body_text + incl_text)]
+    replaced = [r for r in [c.split('/')[0] for c in spec.calls] + list(spec.shims) if re.search(r'\b%s\s*\(' % re.escape(r), body_text + incl_text)]
     cmd = ['goto-instrument', '--dfcc', entry, '--enforce-contract', spec.cname]
     for r in replaced:
         cmd += ['--replace-call-with-contract', r]
@@ -110,7 +110,8 @@ def discharge(spec, workroot, keep=False, extra_cbmc=None, trace_props=None, sol
         res["status"] = "tool-error"
         res["reason"] = "goto-instrument failed:\n" + out[-2500:]
         return res
-    cbmc = ['cbmc', 'b.gb', '--object-bits', OBJECT_BITS] + CBMC_FLAGS + ['--json-ui']
+    flags = [f for f in CBMC_FLAGS if not ('no-pointer-overflow-check' in spec.flags and f == '--pointer-overflow-check')]
+    cbmc = ['cbmc', 'b.gb', '--object-bits', OBJECT_BITS] + flags + ['--json-ui']
     if spec.bounded:
         m = re.match(r'unwind\s+(\d+)', spec.bounded)
         cbmc += ['--unwind', m.group(1), '--unwinding-assertions']
@@ -164,6 +165,7 @@ def discharge(spec, workroot, keep=False, extra_cbmc=None, trace_props=None, sol
                 lab = dm.group(1)
         if lab is None and kind == 'safety' and spec.safety and f.endswith('unit.c') and fn_lo <= line <= fn_hi:
             lab = spec.safety
+        # cbmc reports UNKNOWN for properties it could not decide because an unwinding assertion failed
         ob = {"id": r['property'], "status": r['status'], "kind": kind, "label": lab,
               "description": r.get('description', '')[:200], "line": line,
               "file": os.path.basename(f) if f else ''}
